@@ -13,10 +13,27 @@ class RawSink(Sink):
         self.items.append(i)
 
 
-def run(ops, chunks):
+class SecondSubscriptionDiffers(Exception):
+    """Reported through sink.error: the same observable, subscribed again, did not behave as the first time."""
+
+
+def twice(obs, n_inputs, limit=3):
+    """Subscribe `obs`; for short inputs subscribe it a second time and turn a different outcome into sink.error
+    (every check already reports an unexpected error together with its repr)."""
     sink = RawSink()
-    sink.subscribe_to(rx.from_(list(chunks)).pipe(*ops))
+    sink.subscribe_to(obs)
+    if n_inputs <= limit and sink.error is None:
+        again = RawSink()
+        again.subscribe_to(obs)
+        if repr(again.items) != repr(sink.items) or again.completed != sink.completed or again.error is not None:
+            sink.error = SecondSubscriptionDiffers('first: %r completed=%r; second: %r completed=%r error=%r' % (
+                sink.items[:6], sink.completed, again.items[:6], again.completed, again.error))
     return sink
+
+
+def run(ops, chunks):
+    chunks = list(chunks)
+    return twice(rx.from_(chunks).pipe(*ops), len(chunks))
 
 
 def with_empty_chunks(chunks, empty, mode):
